@@ -1,12 +1,16 @@
 //! h-recovery: harnesses that need qbase + qrecovery only.
 mod c08;
 mod c09;
+mod c10;
+mod util;
 
 fn main() {
     let args = mc_core::Args::parse();
     let code = match args.property.as_str() {
         "C08" => c08::run(&args),
         "C09" => c09::run(&args),
+        "C10" => c10::run(&args, false),
+        "C07a" => c10::run(&args, true),
         other => {
             eprintln!("h-recovery: unknown property {other}");
             2
